@@ -459,8 +459,116 @@ func Facts(repo string) (string, error) {
 		}
 		fmt.Fprintf(&sb, "/-- every code point c for which a session whose peer sends the single character c between\ntop-level elements goes on serving (all 1112064 scalar values tried) -/\ndef topWhitespace : Option (List Nat) := some [%s]\n", strings.Join(el, ", "))
 	}
+	sb.WriteString("\n" + verdictFacts())
 	sb.WriteString("\nend XmppModel.Generated.C08\n")
 	return sb.String(), nil
+}
+
+// kinds of the verdict table (the model maps each name to a token: Serve.factTok)
+var factKinds = []struct{ name, xml string }{
+	{"ws", " \n"},
+	{"text", "x"},
+	{"comment", "<!--c-->"},
+	{"pi-xml", `<?xml version="1.0"?>`},
+	{"pi-XML", `<?XML x?>`},
+	{"pi-stylesheet", `<?xml-stylesheet href="a"?>`},
+	{"pi-x", `<?x y?>`},
+	{"directive", "<!DOCTYPE x>"},
+	{"stream-error", `<stream:error><host-gone xmlns="urn:ietf:params:xml:ns:xmpp-streams"/></stream:error>`},
+	{"restart", `<stream:stream xmlns="jabber:client" xmlns:stream="http://etherx.jabber.org/streams">`},
+	{"stream-other", `<stream:features/>`},
+	{"plain", `<e xmlns="urn:e"/>`},
+	{"close", `</stream:stream>`},
+}
+
+// verdictFacts runs the real reader (through real sessions) on the finite grid token kind x
+// depth 0/1/2 of an established stream, and real negotiations on kind-before-header, and
+// renders the observed verdicts.
+func verdictFacts() string {
+	var rows []string
+	ok := true
+	for _, k := range factKinds {
+		for depth := 0; depth <= 2; depth++ {
+			if k.name == "close" && depth > 0 {
+				continue // not well-formed: the decoder reports it, the reader never sees it
+			}
+			open, shut := "", ""
+			for d := 0; d < depth; d++ {
+				open += fmt.Sprintf(`<w%d xmlns="urn:w">`, d)
+				shut = fmt.Sprintf("</w%d>", d) + shut
+			}
+			body := open + k.xml
+			if k.name != "restart" {
+				body += shut + `<probe xmlns="urn:p"/></stream:stream>`
+			}
+			// the handler of the wrapping element reads through the token under test and
+			// ignores errors; at depth 0 there is no wrapping element
+			progs := []Prog{progReads(depth+2, "ok"), progReads(0, "ok"), progReads(0, "ok")}
+			res := Serve(NSClient, LocalJID, RemoteJID, []byte(body), progs, nil)
+			v := ""
+			cls := ErrClass(res.Err)
+			switch {
+			case res.Panic != "" || res.Stall:
+				ok = false
+			case depth == 0:
+				switch {
+				case cls != "clean":
+					v = cls
+				case len(res.Invs) > 0 && res.Invs[len(res.Invs)-1].Start.Name.Local == "probe":
+					v = "tok" // delivered (an element) or passed on and skipped (a keep-alive)
+				default:
+					v = "eof"
+				}
+			default:
+				if len(res.Invs) == 0 || len(res.Invs[0].Obs) < depth {
+					ok = false
+					break
+				}
+				o := res.Invs[0].Obs[depth-1]
+				switch {
+				case strings.HasPrefix(o, "t"):
+					v = "tok"
+				case o == "e":
+					v = cls
+				default:
+					v = "eof"
+				}
+			}
+			rows = append(rows, fmt.Sprintf("(%q, %d, %q)", k.name, depth, v))
+		}
+	}
+	var sb strings.Builder
+	if !ok {
+		sb.WriteString("def readerVerdicts : Option (List (String × Nat × String)) := none\n")
+	} else {
+		sb.WriteString("/-- verdict of the real stream reader on an established stream for every token kind at nesting\ndepth 0, 1, 2 (observed through real sessions) -/\ndef readerVerdicts : Option (List (String × Nat × String)) := some [\n  " + strings.Join(rows, ",\n  ") + "]\n")
+	}
+	// while a stream header is expected (negotiating): what may precede the header
+	var hrows []string
+	neg := xmpp.NewNegotiator(func(*xmpp.Session, *xmpp.StreamConfig) xmpp.StreamConfig { return xmpp.StreamConfig{} })
+	hdr := `<stream:stream xmlns="jabber:client" xmlns:stream="` + NSStream + `" version="1.0" to="example.com">`
+	for _, k := range factKinds[:8] {
+		var err error
+		p := common.Recover(func() {
+			_, err = xmpp.ReceiveSession(context.Background(), rwPair{strings.NewReader(k.xml + hdr), io.Discard}, 0, neg)
+		})
+		v := "header-reached"
+		switch {
+		case p != "":
+			v = "PANIC"
+		case err != nil && strings.Contains(err.Error(), "proc inst"):
+			v = "procinst"
+		case err != nil && strings.Contains(err.Error(), "comment"):
+			v = "comment"
+		case err != nil && strings.Contains(err.Error(), "directive"):
+			v = "directive"
+		case err != nil && strings.Contains(err.Error(), "chardata"):
+			v = "chardata"
+		}
+		hrows = append(hrows, fmt.Sprintf("(%q, %q)", k.name, v))
+	}
+	sb.WriteString("\n/-- what the real negotiation does with a token that precedes the stream header -/\ndef headerVerdicts : Option (List (String × String)) := some [\n  " + strings.Join(hrows, ",\n  ") + "]\n")
+	return sb.String()
 }
 
 // ---- generators ----------------------------------------------------------------
